@@ -4,6 +4,7 @@ Decides the *shape* of the append / journal / rollback code on every path
 (DESIGN.md section 3, C06-D1..D4); not the behaviour at each kill instant.
 """
 import ast
+import os
 
 from ..index import dotted, walk_no_nested, norm_text, AnalysisError
 from ..cfg import describe_path
@@ -210,6 +211,30 @@ def run(ctx):
         only_glob = all(k[0] == 'T' and 'glob' in k[1] for k in atoms) and len(leaves) == 2
         ck.expect(not bad and only_glob, 'C06-D4', chk.qual, 'raise OSError iff journal files exist',
                   'journal check does not raise OSError exactly when a journal file exists: %s' % (bad or leaves), chk.loc())
+    # the journal is the recorder's: nobody else in wpull names its suffix (to glob for it, remove it, or recreate it).  A start-up
+    # step that tidies journals away removes the only evidence that the archive has an unfinished tail.
+    sufs = set()
+    for n in ast.walk(mod.tree):
+        if isinstance(n, ast.Constant) and isinstance(n.value, str) and 'wpullinc' in n.value:
+            sufs.add(n.value.lstrip('*'))
+    if not sufs:
+        raise AnalysisError('the journal suffix is not a string constant of warc/recorder.py any more')
+    stem = sorted(sufs, key=len)[0].strip('-*')
+    n_mod, offenders = 0, []
+    for m2 in repo.modules.values():
+        if m2 is mod or not m2.name.startswith('wpull.') or m2.name.endswith('_test') or m2.name.startswith(('wpull.testing', 'wpull.thirdparty')):
+            continue
+        n_mod += 1
+        hits = [n for n in ast.walk(m2.tree) if isinstance(n, ast.Constant) and isinstance(n.value, str) and stem in n.value]
+        if hits:
+            offenders.append((m2, hits[0]))
+    for m2, h in offenders:
+        ck.bad('C06-D4', m2.name, 'the journal suffix is named only in warc/recorder.py',
+               '%s handles journal files itself (%r): the journal check at start-up is the recorder\'s only witness of an interrupted append; '
+               'a journal removed or made by anyone else makes it answer wrongly' % (m2.name, h.value[:40]),
+               '%s:%d' % (os.path.relpath(m2.path, repo.root), h.lineno))
+    if not offenders:
+        ck.ok('C06-D4', MOD, 'the journal suffix is named only in warc/recorder.py (%d other modules searched)' % n_mod)
 
 
 def _contains(root, node):
@@ -427,6 +452,43 @@ def _check_append(ctx, fi, app_call):
               'an exception that is not an OSError (KeyboardInterrupt, an error raised while the record is read) leaves the partial '
               'record in the archive and still removes the journal: a torn archive with no journal, which the next run appends to',
               fi.loc(app_stmt), path=describe_path(px) if px else None)
+    # the rollback handler logs before it truncates.  That message goes through the brace-style logging adapter with the file name as a
+    # keyword; the adapter keeps such keywords for the message and hands the stdlib only its own `extra`.  A keyword forwarded into
+    # `extra` is refused by logging (KeyError: "Attempt to overwrite 'filename' in LogRecord") - raised before the truncate, after
+    # which the finally clause still removes the journal.
+    try:
+        pa = repo.func('wpull.backport.logging:StyleAdapter._process_args')
+    except Exception:
+        pa = None
+    if pa is not None:
+        bad_ = None
+        n_st = 0
+        caller_names = set(pa.params[1:]) | {n_ for n_, ds in U.local_defs(pa.node).items() for v, k, st in ds
+                                             if v is not None and any(isinstance(x, ast.Name) and x.id in pa.params[1:] for x in ast.walk(v))
+                                             and not isinstance(v, ast.Call)}
+        for st in walk_no_nested(pa.node):
+            if isinstance(st, ast.Assign) and any(isinstance(t, ast.Subscript) and isinstance(t.slice, ast.Constant) and t.slice.value == 'extra' for t in st.targets):
+                n_st += 1
+                names_ = {x.id for x in ast.walk(st.value) if isinstance(x, ast.Name)}
+                if names_ & caller_names or names_ - {'self', 'dict'}:
+                    src = {x.id for x in ast.walk(st.value) if isinstance(x, ast.Name)} - {'self', 'dict'}
+                    # a local built from the caller's keywords
+                    defs_ = U.local_defs(pa.node)
+                    def from_caller(nm, depth=0):
+                        if nm in pa.params[1:]:
+                            return True
+                        if depth > 3:
+                            return False
+                        return any(v is not None and any(isinstance(x, ast.Name) and from_caller(x.id, depth + 1) for x in ast.walk(v))
+                                   for v, k, s_ in defs_.get(nm, []))
+                    upd = [c for c in U.calls(pa.node) if U.attr_name(c) in ('update', 'setdefault') and isinstance(c.func.value, ast.Name) and c.func.value.id in src
+                           and any(isinstance(x, ast.Name) and from_caller(x.id) for a_ in c.args for x in ast.walk(a_))]
+                    if any(from_caller(nm) for nm in src) or upd:
+                        bad_ = st
+        ck.expect(n_st >= 1 and bad_ is None, 'C06-D3', pa.qual, "extra handed to the stdlib logger holds none of the caller's message keywords",
+                  'message keywords are forwarded into `extra`: logging refuses keys that collide with LogRecord attributes (filename, module, '
+                  'name, ...) with KeyError, so the rollback message `filename=...` raises before the archive is truncated and the journal is '
+                  'removed all the same', pa.loc(bad_) if bad_ is not None else pa.loc())
 
 
 def _dominated_through_if(cfg, dom, st, A, pm):
